@@ -749,7 +749,7 @@ fn sizes(first: usize, w: &mut WorkerCtx)
 	// was declared before or on the structure being declared later)
 	for (i, _) in lists.iter().enumerate()
 	{
-		text.push_str(&format!("fn by{i}(p: &[]u8)\n{{\n}}\nconst K{i}: usize = |:S{i}|;\nconst A{i}: usize = |:[3]S{i}|;\n"));
+		text.push_str(&format!("fn by{i}(p: &[]u8)\n{{\n}}\nconst K{i}: usize = |:S{i}|;\nconst A{i}: usize = |:[3]S{i}|;\nconst P{i}: usize = |:In| + |:S{i}|;\n"));
 	}
 	for (i, l) in lists.iter().enumerate()
 	{
@@ -778,7 +778,7 @@ fn sizes(first: usize, w: &mut WorkerCtx)
 	text.push_str("fn main() -> u8\n{\n");
 	for (i, _) in lists.iter().enumerate()
 	{
-		text.push_str(&format!("\tprint!(|:S{i}|, \" \", |:[3]S{i}|, \" \", K{i}, \" \", A{i}, \"\\n\");\n"));
+		text.push_str(&format!("\tprint!(|:S{i}|, \" \", |:[3]S{i}|, \" \", K{i}, \" \", A{i}, \" \", P{i}, \"\\n\");\n"));
 	}
 	for (t, _) in &plain
 	{
@@ -808,7 +808,8 @@ fn sizes(first: usize, w: &mut WorkerCtx)
 			for (i, (members, size, size3)) in expected.iter().enumerate()
 			{
 				w.result.validated += 1;
-				let want = format!("{size} {size3} {size} {size3}");
+				// P = |:In| + |:S|: a size-of followed by another one in one constant expression (In is 8 bytes)
+				let want = format!("{size} {size3} {size} {size3} {}", 8 + size);
 				if lines[i] != want
 				{
 					let nums: Vec<&str> = lines[i].split(' ').collect();
